@@ -246,6 +246,21 @@ def cases(rng: random.Random, tier: str):
     for it in range(n_trees):
         if it % 12 == 0:
             yield from dyn_class_cases(rng)
+        if it % 10 == 5:
+            # runs of directly linked steps of ONE class before a `//`, on chains that hold a longer run of that class: a
+            # matcher that walks upwards must try every alignment of the run (a partial fit nearer to the node must not hide
+            # the full fit further up)
+            k = 3 + (it // 10) % 3
+            n0 = zoo.Leaf(v=it % 4)
+            for _j in range(k):
+                n0 = zoo.Un(n0)
+            r0 = zoo.Opt(zoo.Tup((zoo.Leaf(v=9), n0)))
+            toks0, orgs0 = zoo.Tokens(), zoo.OrgTable()
+            env0 = [zoo.class_table(), orgs0.sexp(), [A("tree"), zoo.enc_tree(r0, toks0, orgs0)]]
+            nodes0 = [r0] + [c for (c, p, f, i) in zoo.positions(r0)]
+            for text in ("/Opt/Tup/Un/Un//Leaf", "/Opt/Tup/Un/Un//Un/Leaf", "//Un/Un//Leaf", "/Opt/Tup//Un/Un/Leaf", "/Opt/Tup/Un//Un/Un//Leaf",
+                         "//Tup/Un/Un//Un", "/Opt/Tup/Un/Un/Un//Leaf", "//Un/Un/Un//Leaf", "/Opt//Un//Un/Un//Leaf"):
+                yield one(rng, r0, env0, toks0, nodes0, text, zoo.show(r0))
         g = zoo.Gen(rng, origins=False, share=0.0)
         root = g.tree(rng.choice([1, 3, 6, 10, 20, 40]))
         glue = rng.random() < 0.08
